@@ -235,6 +235,7 @@ func (e *c11Env) exploreShard(sc scen, bound, shard, shards int, maxExec int64) 
 	var lastBad, lastObs string
 	st := xplore.Explore(xplore.Options{Bound: bound, Shard: shard, Shards: shards, MaxExec: maxExec}, func(x *xplore.X) {
 		o, p, bad := e.runSchedule(sc, x)
+		childBeat()
 		outcomes[ev.H(o)] = true
 		patterns[ev.H(p)] = true
 		lastBad, lastObs = bad, o
@@ -392,8 +393,12 @@ func c11(r *ev.Run) {
 			defer wg.Done()
 			defer func() { <-sem }()
 			cmd := exec.Command(self, "C11")
-			cmd.Env = append(os.Environ(), fmt.Sprintf("VERIF_CHILD=%s\t%d\t%d\t%d\t%d", j.sc.name, j.bound, j.shard, j.shards, maxExec), "GOMAXPROCS=2")
+			bm := beatMarker(i)
+			cmd.Env = append(os.Environ(), fmt.Sprintf("VERIF_CHILD=%s\t%d\t%d\t%d\t%d", j.sc.name, j.bound, j.shard, j.shards, maxExec), "GOMAXPROCS=2", "VERIF_BEAT="+bm)
+			stopBeat := make(chan struct{})
+			go superviseBeat(bm, r.Beat, stopBeat)
 			outp, err := cmd.Output()
+			close(stopBeat)
 			res := shardResult{Scenario: j.sc.name, Broken: "worker produced no result"}
 			sc := bufio.NewScanner(strings.NewReader(string(outp)))
 			sc.Buffer(make([]byte, 1<<20), 1<<26)
